@@ -129,25 +129,19 @@ Theorem C06_missing_unspent_counted_bad :
 Proof. exact missing_counted_bad. Qed.
 Print Assumptions C06_missing_unspent_counted_bad.
 
-(* with Tx.missing_unspent as the notion of "unknown" the statement is FALSE in the faithful model: a coinbase
-   input with a recorded unspent has missing_unspent = True, is_solution_ok ignores the recorded script (puzzle
-   b"") and returns the checker's verdict (replayed on /repo: known finding coinbase-recorded-unspent) *)
-Definition C06_statement_missing_unspent : Prop :=
-  forall check t unspents idx flags,
-    missing_unspent t unspents idx = true -> is_solution_ok check t unspents idx flags = Ret false.
-
-Theorem C06_refuted_coinbase_recorded_unspent : ~ C06_statement_missing_unspent.
-Proof. exact missing_unspent_statement_refuted. Qed.
-Print Assumptions C06_refuted_coinbase_recorded_unspent.
-
-(* exclusion predicate: tx_is_coinbase *)
-Theorem C06_missing_unspent_partial :
+(* the same with Tx.missing_unspent as the notion of "unknown": short list, None, or a coinbase input (which has no
+   spent output at all, whatever is recorded for it) — the override of coins/bitcoin/Tx.py *)
+Theorem C06_statement_missing_unspent :
   forall (check : tx -> list (option txout) -> tx_context -> N -> outcome unit)
          (t : tx) (unspents : list (option txout)) (idx : nat) (flags : N),
-  tx_is_coinbase t = false -> missing_unspent t unspents idx = true ->
-  is_solution_ok check t unspents idx flags = Ret false.
-Proof. exact missing_unspent_never_valid_partial. Qed.
-Print Assumptions C06_missing_unspent_partial.
+  missing_unspent t unspents idx = true -> is_solution_ok check t unspents idx flags = Ret false.
+Proof. exact missing_unspent_never_valid. Qed.
+Print Assumptions C06_statement_missing_unspent.
+
+Example C06_example_coinbase_recorded_unspent : forall check u flags,
+  missing_unspent coinbase_witness_tx [Some u] 0 = true
+  /\ is_solution_ok check coinbase_witness_tx [Some u] 0 flags = Ret false.
+Proof. exact coinbase_recorded_unspent_not_valid. Qed.
 
 (* (4) statelessness — PARTIAL: in the model validation is a function of (transaction, unspents, idx, flags), so
    after any history of states the k-th verdict is the verdict a fresh validation of the k-th state gives.  That
